@@ -58,9 +58,25 @@ def gen_dataset(rng, system=None, nv=None, nq=None, natoms=None, lattice=None, d
     energies = bm3_energy(volumes, v0, k0, kp, e0)
     if energy_class == "noncubic":
         # E(V) that is not a cubic in Eulerian strain (fourth/fifth-order finite-strain terms): EoS fits of different orders differ
-        f_ = ((v0 / volumes) ** (2.0 / 3.0) - 1) / 2
         sub = numpy.random.default_rng(int(abs(e0) * 1e6) % (2 ** 31))
-        energies = energies + 4.5 * v0 * k0 * (sub.uniform(-12, 12) * f_ ** 4 + sub.uniform(-40, 40) * f_ ** 5)
+        c4_, c5_ = float(sub.uniform(-12, 12)), float(sub.uniform(-40, 40))
+
+        def extra_(vv, s_):
+            f_ = ((v0 / vv) ** (2.0 / 3.0) - 1) / 2
+            return 4.5 * v0 * k0 * s_ * (c4_ * f_ ** 4 + c5_ * f_ ** 5)
+        # keep the curve physical: pressure must rise monotonically (bulk modulus > 0) with a margin on the whole range any
+        # calculation may extrapolate to (volume_ratio up to 1.5); otherwise the high-order terms are scaled down
+        vfine = numpy.linspace(volumes.min() / 1.5, volumes.max() * 1.5, 400)
+        s_ = 1.0
+        for _ in range(12):
+            e_ = bm3_energy(vfine, v0, k0, kp, e0) + extra_(vfine, s_)
+            p_ = -numpy.gradient(e_, vfine)
+            kt_ = -vfine * numpy.gradient(p_, vfine)
+            kt3_ = -vfine * numpy.gradient(-numpy.gradient(bm3_energy(vfine, v0, k0, kp, e0), vfine), vfine)
+            if numpy.all(kt_[2:-2] > 0.5 * kt3_[2:-2]) and numpy.all(kt_[2:-2] < 2.0 * kt3_[2:-2]):
+                break
+            s_ *= 0.6
+        energies = energies + extra_(volumes, s_)
     # spectrum: unique (w0,g0) per mode; moderate anharmonic parameters
     w0 = rng.uniform(80, 1200, size=(nq, np_))
     g0 = rng.uniform(0.3, 2.2, size=(nq, np_))
